@@ -113,49 +113,64 @@ pub fn no_std(m: &Model, ctx: &mut Ctx, rule: &str) {
             if !p.contains("no_std") {
                 continue;
             }
-            struct C<'a> {
-                p: &'a str,
-                out: Vec<syn::ExprIf>,
-            }
-            impl<'a> model::DeepCb for C<'a> {
-                fn expr(&mut self, e: &syn::Expr) {
-                    if let syn::Expr::If(i) = e {
-                        let c = tok(&i.cond);
-                        if c == self.p || c == format!("!{}", self.p) {
-                            self.out.push(i.clone());
-                        }
+            // the template is evaluated for both values of the flag (other templates it delegates to are followed): the
+            // two items must declare the same name with the same type and the same initialiser, one as
+            // `lazy_static! { pub static ref N: T = INIT; }`, the other as `pub static N: LazyLock<T> = LazyLock::new(|| INIT);`
+            n += 1;
+            ctx.func(&f.key);
+            ctx.oblige(rule, &format!("no_std:{}", f.name), true);
+            use crate::eval::{Env, Evaluator, Val};
+            let consts = const_resolver(m);
+            let inl = inline_all(m, &[]);
+            let ev = Evaluator { consts: &consts, call_hook: &crate::eval::no_hook, inline: Some(&inl) };
+            let mut rendered: Vec<String> = vec![];
+            let mut failed = false;
+            for flag in [true, false] {
+                let mut env = Env::new();
+                for a in f.sig.inputs.iter() {
+                    if let syn::FnArg::Typed(t) = a {
+                        let pn = tok(&t.pat);
+                        let v = if &pn == p { Val::Bool(flag) } else if tok(&t.ty) == "bool" { Val::Bool(false) } else { Val::Sym(format!("<{}>", pn)) };
+                        env.insert(pn, v);
                     }
                 }
+                match ev.eval_fn_body(&f.block, &mut env) {
+                    Ok(Val::Sym(t)) | Ok(Val::Str(t)) => rendered.push(t.split_whitespace().collect::<Vec<_>>().join(" ")),
+                    Ok(o) => { ctx.fail_closed(rule, &format!("[{} no_std={}]: result {}", f.name, flag, o.show().chars().take(100).collect::<String>())); failed = true; break }
+                    Err(e) => { ctx.fail_closed(rule, &format!("[{} no_std={}]: {}", f.name, flag, e)); failed = true; break }
+                }
             }
-            let mut c = C { p, out: vec![] };
-            model::deep_walk_block(&f.block, &mut c);
-            for i in &c.out {
-                n += 1;
-                ctx.func(&f.key);
-                ctx.oblige(rule, &format!("no_std:{}", f.name), true);
-                let negated = tok(&i.cond).starts_with('!');
-                let Some((t, e)) = branch_quotes(i).map(|(t, e)| if negated { (e, t) } else { (t, e) }) else {
-                    ctx.fail_closed(rule, &format!("{}: the no_std decision is not a pair of quote! templates", f.name));
-                    continue;
-                };
-                let (mut vt, mut ve) = (BTreeSet::new(), BTreeSet::new());
-                quotex::interp_vars(&t, &mut vt);
-                quotex::interp_vars(&e, &mut ve);
-                if vt != ve {
-                    ctx.violate(rule, &format!("no_std:{}:variables", f.name), &f.file, span_line(i),
-                        &format!("{}: the no_std branch interpolates {:?}, the std branch {:?}: the option may only swap LazyLock for lazy_static, every other part of the item must be the same", f.name, vt, ve));
+            if failed {
+                continue;
+            }
+            let squeeze = |t: &str| t.replace(' ', "");
+            let (with, without) = (squeeze(&rendered[0]), squeeze(&rendered[1]));
+            // (prefix, name, type, initialiser) of each form
+            let parse_with = |t: &str| -> Option<(String, String, String, String)> {
+                let i = t.find("lazy_static!{")?;
+                let inner = t[i + "lazy_static!{".len()..].strip_suffix('}')?;
+                let j = inner.find("pubstaticref")?;
+                let (prefix, rest) = (format!("{}{}", &t[..i], &inner[..j]), &inner[j + "pubstaticref".len()..]);
+                let c = rest.find(':')?;
+                let e = rest[c..].find('=')? + c;
+                Some((prefix, rest[..c].to_string(), rest[c + 1..e].to_string(), rest[e + 1..].strip_suffix(';')?.to_string()))
+            };
+            let parse_without = |t: &str| -> Option<(String, String, String, String)> {
+                let j = t.find("pubstatic")?;
+                let (prefix, rest) = (t[..j].to_string(), &t[j + "pubstatic".len()..]);
+                let c = rest.find(":LazyLock<")?;
+                let e = rest.find(">=LazyLock::new(||")?;
+                Some((prefix, rest[..c].to_string(), rest[c + ":LazyLock<".len()..e].to_string(), rest[e + ">=LazyLock::new(||".len()..].strip_suffix(");")?.to_string()))
+            };
+            match (parse_with(&with), parse_without(&without)) {
+                (Some(a), Some(b)) => {
+                    if a != b {
+                        ctx.violate(rule, &format!("no_std:{}:variables", f.name), &f.file, f.line,
+                            &format!("{}: with no_std_compliant_bindings the item is `{}`, without it `{}` — the option may only swap LazyLock for lazy_static, name, type and initialiser must be the same (no_std: {:?}; std: {:?})", f.name, rendered[0], rendered[1], a, b));
+                    }
                 }
-                let (ct, ce) = (quotex::canon(&t), quotex::canon(&e));
-                if !(ct.contains("lazy_static !") && !ct.contains("LazyLock")) {
-                    ctx.violate(rule, &format!("no_std:{}:true-branch", f.name), &f.file, span_line(i), &format!("{}: with no_std_compliant_bindings the item must be a lazy_static! (and not mention LazyLock)", f.name));
-                }
-                if !(ce.contains("LazyLock") && !ce.contains("lazy_static")) {
-                    ctx.violate(rule, &format!("no_std:{}:false-branch", f.name), &f.file, span_line(i), &format!("{}: without the option the item must use LazyLock (and not lazy_static!)", f.name));
-                }
-                // same declared name / type / initialiser tokens besides the wrapper
-                for must in ["# comments", "# name", "# vtype"] {
-                    let _ = must;
-                }
+                (None, _) => ctx.violate(rule, &format!("no_std:{}:true-branch", f.name), &f.file, f.line, &format!("{}: with no_std_compliant_bindings the item must be `lazy_static! {{ pub static ref N: T = INIT; }}` (and not mention LazyLock); it is `{}`", f.name, rendered[0])),
+                (_, None) => ctx.violate(rule, &format!("no_std:{}:false-branch", f.name), &f.file, f.line, &format!("{}: without the option the item must be `pub static N: LazyLock<T> = LazyLock::new(|| INIT);` (and not lazy_static!); it is `{}`", f.name, rendered[1])),
             }
         }
     }
